@@ -21,14 +21,30 @@ def map_collect_view(prog, b, t):
     if len(init) != 1 or not (is_call(init[0], "alloc::vec::Vec::new", nargs=0) or is_call(init[0], "alloc::vec::Vec::with_capacity", nargs=1)):
         return None
     pushes = []
+    extends = []
     for bb, c in b.calls():
         for ai, a in enumerate(c["args"]):
             at = b.operand_term(a)
             if at[0] == "ref" and at[1] and unref(at) == V:
                 if b.callee_name(c) == "alloc::vec::Vec::push" and ai == 0:
                     pushes.append((bb, c))
+                elif b.callee_decl(c) == "core::iter::traits::collect::Extend::extend" and ai == 0:
+                    extends.append((bb, c))
                 else:
                     return None  # another mutation of the vector
+    if len(extends) == 1 and not pushes:
+        # `v.extend(ITER.map(f))` on a fresh vector is `ITER.map(f).collect()`
+        src = b.operand_term(extends[0][1]["args"][1])
+        while is_call(src, "into_iter", nargs=1):
+            src = src[2][0]
+        if is_call(src, "core::iter::traits::iterator::Iterator::map", nargs=2):
+            fake = ("call", src[1], src[2])
+            it, clo = src[2]
+            cl, ups = mir.closure_of(clo)
+            cb = prog.body(cl) if cl else None
+            if cb is not None:
+                return {"iter": it, "body": cb, "elem": cb.return_term(), "item": ("arg", 2, cb.names.get(2)), "kind": "closure", "upvars": ups}
+        return None
     if len(pushes) != 1:
         return None
     pbb, pc = pushes[0]
@@ -106,6 +122,9 @@ def lam_of(prog, fterm):
             return None
         return Lam(cb, ("arg", 2, cb.names.get(2)), cb.return_term(), list(ups), "closure")
     f = unref(fterm)
+    if f[0] == "fn" and f[3] in prog._bodies_raw and prog.body(f[3]) is not None and prog.body(f[3]).arg_count == 1:
+        fb = prog.body(f[3])
+        return Lam(fb, ("arg", 1, fb.names.get(1)), fb.return_term(), None, "localfn", fn=f[1])
     if f[0] == "fn":
         return Lam(None, None, None, None, "fn", fn=f[1])
     return None
@@ -171,7 +190,7 @@ def seq_filter(prog, b, t):
     if is_call(t0, "collect", nargs=1) and is_call(t0[2][0], "core::iter::traits::iterator::Iterator::filter", nargs=2):
         it, clo = t0[2][0][2]
         lam = lam_of(prog, clo)
-        if lam is None or lam.kind != "closure":
+        if lam is None or lam.kind not in ("closure", "localfn"):
             return None
         while is_call(it, "into_iter", nargs=1):
             it = it[2][0]
